@@ -54,6 +54,7 @@ var pcases = &Cases{Kind: "incircle", Imports: "From Sdfx Require Import Algo.De
 var slcases = &Cases{Kind: "slow", Imports: "From Sdfx Require Import Algo.DelaunayCorr.\nOpen Scope float_scope.", Type: "slcase", Fn: "slmismatches", PerShard: 60}
 var scases = &Cases{Kind: "super", Imports: "From Sdfx Require Import Algo.DelaunayCorr.\nOpen Scope float_scope.", Type: "scase", Fn: "smismatches", PerShard: 200}
 var did = 0
+var panicSeen = map[string]bool{}
 
 func checkC20(c *Ctx, r *Report) error {
 	rng := NewRng(c.Seed)
@@ -67,8 +68,19 @@ func checkC20(c *Ctx, r *Report) error {
 	}
 	equalsCase := func(stratum string, a, b []render.TriangleI, mustEqual bool) {
 		id++
-		res := cloneTris(a).Equals(cloneTris(b))
-		can := cloneTris(a).Canonical()
+		res, p1 := safeEquals(a, b)
+		can, p2 := safeCanonical(a)
+		if p1 != nil || p2 != nil {
+			r.Case(stratum, fmt.Sprintf("equals:%v|%v", a, b), len(a) >= 2)
+			if pk := fmt.Sprintf("equals-panic:%d:%v", len(a), p1); panicSeen[pk] {
+				return
+			} else {
+				panicSeen[pk] = true
+			}
+			r.Violate(fmt.Sprintf("equals-panic:%d:%v", len(a), p1), fmt.Sprintf("Equals / Canonical panics on two sets of %d triangles: %v %v", len(a), p1, p2),
+				map[string]interface{}{"a": a, "b": b})
+			return
+		}
 		cs.Add(fmt.Sprintf("(%d%%N, %s, %s, %s, %s)", id, trisTerm(a), trisTerm(b), CB(res), trisTerm(can)))
 		key := fmt.Sprintf("equals:%v|%v", a, b)
 		r.Case(stratum, key, len(a) >= 2)
@@ -134,6 +146,11 @@ func checkC20(c *Ctx, r *Report) error {
 	// different lengths
 	equalsCase("length-differs", []render.TriangleI{{0, 1, 2}}, []render.TriangleI{{0, 1, 2}, {1, 2, 3}}, false)
 	if err := cs.Write(c.Out); err != nil {
+		return err
+	}
+	// synthetic index-triple sets over the whole int range, every reordering / rotation of tiny sets,
+	// 1000-triple sets, Less on probe lists: synth.go (own random stream)
+	if err := synthStratum(c, r); err != nil {
 		return err
 	}
 
@@ -275,8 +292,9 @@ func checkC20(c *Ctx, r *Report) error {
 	if err := pcases.Write(c.Out); err != nil {
 		return err
 	}
-	r.Rule = "equals cases: random index-triple sets (sizes 0..40, few distinct vertex ids so that leading indices collide) against a randomly reordered and per-triple rotated copy, or a copy with one winding flipped / one index changed; non-trivial = at least 2 triangles, distinct by (a,b). delaunay cases: random dyadic point sets (3..200 points, offset and clustered strata) checked with exact rational predicates; non-trivial = robustly in general position (relative orientation/incircle margins > 1e-7) so the exact answer is well defined; distinct by point list. hull-cluster cases: 3..5 close, nearly collinear hull vertices (spacing 1e-1..1e-4 of the extent, defect 1e-3..1e-12, bumps out / in / alternating, axis-parallel or slanted side, optionally on a long nearly straight side, scales 1/8..8), the defect log-bisected down to the boundary of the scale-aware class that is decided in exact integer arithmetic (no super-triangle vertex within sqrt(2) radii of an exact Delaunay triangle's circumcentre, every in-circle decision with relative margin >= 1e-14 x conditioning and absolute margin >= 1e-9); inside that class: exact empty-circle test without margin, 2n-2-h, fast = slow."
-	r.Trusted = append(r.Trusted, "hand model coq/Algo/Canon.v of TriangleI.Canonical/Less/Equals tied by differential execution (cases_canon_*.v)",
+	r.Rule = "equals cases: random index-triple sets (sizes 0..40, few distinct vertex ids so that leading indices collide) against a randomly reordered and per-triple rotated copy, or a copy with one winding flipped / one index changed; non-trivial = at least 2 triangles, distinct by (a,b). synthetic equals cases (synth.go): index triples that do not come from a triangulation, indices over the whole int range (0, small, 10^k+-1, 2^k+-1 for k=15..62, MaxInt; negative down to MinInt in their own stratum; pools {x, x+N, x+2N} for N = 2^w, w=1..62, or 10^k; adjacent values at 2^53, 2^62, MaxInt-8), fans with equal first/second components, carry pairs (a,b,c+N)/(a,b+1,c) and (a,b+N,c)/(a+1,b,c); sizes 1,2,3 with every reordering x every rotation, 4..40 and 1000 with random and structured reorderings (reversed, shifted, ascending, descending, all-rot1/2); changed copies (winding reversed, one index moved by +-1 / +-2^k / +-10^6, compensating moves, components exchanged between two triples, a duplicate for one triple; at the first / last / a random position of the sorted form); expected result from a map of least-first rotations (no order), canonical forms of copies identical and equal to the independently sorted reference; Less: irreflexive, asymmetric, total, transitive on probe lists, values against Canon.less. delaunay cases: random dyadic point sets (3..200 points, offset and clustered strata) checked with exact rational predicates; non-trivial = robustly in general position (relative orientation/incircle margins > 1e-7) so the exact answer is well defined; distinct by point list. hull-cluster cases: 3..5 close, nearly collinear hull vertices (spacing 1e-1..1e-4 of the extent, defect 1e-3..1e-12, bumps out / in / alternating, axis-parallel or slanted side, optionally on a long nearly straight side, scales 1/8..8), the defect log-bisected down to the boundary of the scale-aware class that is decided in exact integer arithmetic (no super-triangle vertex within sqrt(2) radii of an exact Delaunay triangle's circumcentre, every in-circle decision with relative margin >= 1e-14 x conditioning and absolute margin >= 1e-9); inside that class: exact empty-circle test without margin, 2n-2-h, fast = slow."
+	r.Trusted = append(r.Trusted, "hand model coq/Algo/Canon.v of TriangleI.Canonical/Less/Equals tied by differential execution (cases_canon_*.v, cases_canonsyn_*.v, cases_canonbig_*.v; Less values cases_less_*.v)",
+		"independent reference for triangle-set equality in harness/cmd/c20/synth.go (multiset of least-index-first rotations in a Go map; lexicographic comparator)",
 		"hand model coq/Algo/Delaunay.v of Delaunay2d / superTriangle / InCircumcircle / Circumcenter at primitive floats: the returned triangle list (order included) and the predicate values compared exactly (cases_delaunay_*.v, cases_incircle_*.v)",
 		"exact rational Delaunay oracles (math/big) in harness/cmd/c20/main.go, exact integer in-circle / orientation predicates and the class test of the hull-cluster stratum in harness/cmd/c20/nch.go")
 	r.Assumptions = append(r.Assumptions, "whole-triangulation correctness (hull coverage, 2n-2-h, fast = slow) is searched with exact oracles, not proved (C20 partial)",
